@@ -19,6 +19,8 @@ EXTRA = {'C03a1': ['C07'], 'C07a1': ['C03'], 'C13a1': ['C01', 'C03'], 'C13a2': [
          'C12d2': [], 'C02d1': ['C16'], 'C02d2': ['C10', 'C07'], 'C08d1': ['C06'], 'C11d1': ['C07'], 'C11d2': ['C02'], 'C14d1': ['C13'], 'C14d2': ['C13'], 'C01d1': ['C10'], 'C01d2': ['C06'], 'C16d1': ['C02'], 'C16d2': ['C02'],
          'C07d1': ['C10'], 'C07d2': ['C15'], 'C17d2': ['C09'], 'C09d1': ['C07'], 'C09d2': ['C03', 'C11'], 'C06d1': ['C04'], 'C06d2': ['C01'], 'C05d1': ['C13', 'C01'], 'C05d2': ['C06'],
          'C01e2': ['C07'], 'C02e2': ['C16', 'C01'], 'C03e2': ['C06', 'C05'], 'C04e2': ['C13'], 'C04e1': ['C13'], 'C03e1': ['C01'], 'C02e1': ['C11'], 'C01e1': ['C02'], 'C06e1': ['C05', 'C03'],
+         'C05e1': ['C02', 'C08'], 'C05e2': ['C02', 'C08'], 'C07e1': ['C01', 'C03'], 'C07e2': ['C01', 'C03'], 'C08e1': ['C15', 'C07'], 'C08e2': ['C02', 'C09'],
+         'C06e2': ['C05', 'C03'], 'C12e1': ['C02', 'C16'], 'C12e2': ['C02', 'C16'], 'C09e2': ['C08', 'C07'], 'C11e1': ['C02'], 'C10e1': ['C03', 'C07'], 'C11e2': ['C02'], 'C09e1': ['C07'],
          'C17c1': [], 'C08c1': ['C02'], 'C08c2': ['C02'], 'C07c1': ['C03'], 'C07c2': ['C01'], 'C02c1': ['C16'], 'C03c1': ['C07'], 'C03c2': ['C01'], 'C15c1': ['C16', 'C02'], 'C15c2': ['C13'],
          'C11c2': ['C07', 'C10'], 'C12c1': ['C02'], 'C12c2': ['C02'], 'C04c1': ['C03'], 'C01c1': ['C07', 'C11'], 'C01c2': ['C06'], 'C10c1': ['C02'], 'C10c2': ['C02']}
 def run_worker(wid, ids, claimed, snap):
